@@ -64,6 +64,8 @@ class ComponentLevel2( ComponentLevel1 ):
     inst._dsl.RD_U_constraints = defaultdict(set)
     inst._dsl.WR_U_constraints = defaultdict(set)
     inst._dsl.name_func = {}
+    # info of the lambda blocks of this very instance (see _cache_func_meta)
+    inst._dsl.lambda_info = {}
 
     return inst
 
@@ -96,6 +98,9 @@ class ComponentLevel2( ComponentLevel1 ):
       _src, _ast, _line, _file = given
 
       name_info[ name ] = ( True, _src, _line, _file, _ast )
+      # The class-level entry is overridden by the next instance that has
+      # a lambda of the same name: keep the one of this instance as well
+      s._dsl.lambda_info[ name ] = name_info[ name ]
       name_rd[ name ]   = _rd = []
       name_wr[ name ]   = _wr = []
       name_fc[ name ]   = _fc = []
